@@ -66,6 +66,13 @@ func skAddMany(s int, v float64, n int) skOp {
 		mod: func(w *SketchWorld) { w.M[s].Add(v, float64(n)) }}
 }
 
+// skReweightRefused: a.Reweight(0) is refused and changes nothing.
+func skReweightRefused(s int) skOp {
+	return skOp{name: fmt.Sprintf("%s.Reweight(0) [refused, no effect expected]", slotName(s)), tag: "refused",
+		real: func(_ *SketchWorld, st []*SkSlot, _ bool) { st[s].Q().Reweight(0) },
+		mod:  func(*SketchWorld) {}}
+}
+
 // skMergeRefused: a.MergeWith(non-empty sketch of another mapping kind). The
 // call is refused; the reference is left untouched whatever it returns.
 func skMergeRefused(s int) skOp {
@@ -790,7 +797,7 @@ func init() {
 							sp.Ops = append(sp.Ops, skAddW(0, v, c))
 						}
 					}
-					sp.Ops = append(sp.Ops, skReweight(0, 0.5), skReweight(0, 0.0625), skReweight(0, 0.0009765625))
+					sp.Ops = append(sp.Ops, skReweight(0, 0.5), skReweight(0, 0.0625), skReweight(0, 0.0009765625), skReweight(0, 2), skReweight(0, 3))
 					specs = append(specs, sp)
 				}
 			}
